@@ -1837,6 +1837,27 @@ func (in *interp) evalCall(call *ast.CallExpr, st *state) []AV {
 						continue
 					}
 				}
+				if iv, isInt := v.(avInt); isInt {
+					// a conversion to a narrower integer type wraps
+					if b, ok := tv.Type.Underlying().(*types.Basic); ok && b.Info()&types.IsInteger != 0 {
+						w := uint(0)
+						switch b.Kind() {
+						case types.Int8, types.Uint8:
+							w = 8
+						case types.Int16, types.Uint16:
+							w = 16
+						case types.Int32, types.Uint32:
+							w = 32
+						}
+						if w != 0 {
+							m := iv.v & (int64(1)<<w - 1)
+							if b.Info()&types.IsUnsigned == 0 && m >= int64(1)<<(w-1) {
+								m -= int64(1) << w
+							}
+							v = avInt{m}
+						}
+					}
+				}
 				out = append(out, v)
 			case avOpaque:
 				// an opaque token keeps its identity through integer conversions (engines use it as a tag)
